@@ -110,7 +110,7 @@ func TestC19(t *testing.T) {
 		"Non-trivial = at least one call was refused for capacity; distinct = hash(case).",
 		func(r *rig.Run) {
 			ev := r.Ev
-			r.Rapid("rapid", rig.Pick(8000, 40000), func(t *rapid.T) {
+			r.Rapid("rapid", rig.Pick(40000, 150000), func(t *rapid.T) {
 				c := c19Case{Listing: rapid.IntRange(0, 3).Draw(t, "listing") == 0}
 				c.Ops = asmcat.GenHistory(t, asmcat.GenOpts{MaxOps: rig.Pick(30, 80), Labels: true, Data: true, Comments: true, SetBase: true, Assume: true, BadGuard: true})
 				// capacity: solved against a drawn emitting op
